@@ -43,6 +43,15 @@ impl Elem for Z {
     fn tag(&self) -> u8 { 0 }
     const COUNTED: bool = false;
 }
+/// zero-sized element WITH a destructor (counted)
+struct Zd;
+impl Clone for Zd { fn clone(&self) -> Self { Zd::mk(0) } }
+impl Drop for Zd { fn drop(&mut self) { unsafe { DROPS += 1 } } }
+impl Elem for Zd {
+    fn mk(_tag: u8) -> Self { unsafe { CREATED += 1 }; Zd }
+    fn tag(&self) -> u8 { 0 }
+    const COUNTED: bool = true;
+}
 /// heap-owning element with creation/drop counters
 struct D { tag: u8, heap: Box<u8> }
 impl Clone for D {
